@@ -493,6 +493,78 @@ def r5_remap_order_and_freshness(ctx, rule_id="R-C07-5"):
                   "merge no longer imports every source %s index (ids reachable only through instructions would be missing from the remap table)" % table)
 
 
+ID_SOURCES = {  # callee suffix -> kind of the returned id
+    "Program::register_constant": "constant", "Program::register_tuple": "tuple", "Program::register_type": "type", "Program::register_function": "function",
+    "Program::register_builtin": "builtin", "Program::register_builtin_info": "builtin", "Program::never": "type", "environment::import_type": "type",
+    "environment::import_tuple": "tuple", "typing::union_type_ids": "type", "Program::inject_function_captures": "function",
+}
+ID_SINK_CALLS = {  # callee suffix -> {arg index: kind}
+    "types::is_compatible": {0: "type", 1: "type"}, "types::types_overlap": {0: "type", 1: "type"}, "TypeLookup::lookup_type": {1: "type"},
+    "TypeLookup::lookup_tuple": {1: "tuple"}, "Program::lookup_type": {1: "type"}, "Program::lookup_tuple": {1: "tuple"}, "Program::get_function": {1: "function"},
+}
+ID_SINK_INSTR = {"Constant": {0: "constant"}, "Tuple": {0: "tuple"}, "IsType": {0: "type"}, "Function": {0: "function"}, "Builtin": {0: "builtin"}, "Process": {1: "function"}}
+ID_SINK_TYPE = {"Tuple": {0: "tuple"}}
+
+
+def r4_id_kinds(ctx, rule_id="R-C07-4"):
+    R = rule_id
+    ctx.rule(R, "id-kind discipline: an index is only meaningful for the table it was issued for. Wherever the backward slice of an id operand "
+                "(Instruction payloads, Type::Tuple, lookup_type/lookup_tuple/is_compatible arguments) reaches an issuing call in the same function "
+                "(register_constant/tuple/type/function/builtin, never(), import_type/tuple, or the tuple-id constants NIL/OK), the issued kind "
+                "must equal the kind the sink expects (ids that arrive through parameters or fields are unknown and not judged)")
+    F = ctx.facts
+    n = judged = 0
+    for body in F.bodies():
+        if body.fn["crate"] not in ("quiver_compiler", "quiver_core", "quiver_environment", "quiv") or body.fn.get("derived"):
+            continue
+        sinks = []
+        for bi, si, s in agg_sites(body, "bytecode::Instruction"):
+            for idx, kind in ID_SINK_INSTR.get(s["rv"]["variant"], {}).items():
+                if idx < len(s["rv"]["ops"]):
+                    sinks.append((bi, "Instruction::%s" % s["rv"]["variant"], s["rv"]["ops"][idx], kind))
+        for bi, si, s in agg_sites(body, "types::Type"):
+            for idx, kind in ID_SINK_TYPE.get(s["rv"]["variant"], {}).items():
+                if idx < len(s["rv"]["ops"]):
+                    sinks.append((bi, "Type::%s" % s["rv"]["variant"], s["rv"]["ops"][idx], kind))
+        for bi, t in body.calls():
+            c = t.get("callee") or ""
+            for suf, m in ID_SINK_CALLS.items():
+                if c.endswith(suf):
+                    for idx, kind in m.items():
+                        if idx < len(t["args"]):
+                            sinks.append((bi, suf.split("::")[-1], t["args"][idx], kind))
+        if not sinks:
+            continue
+        fl = Flow(body, through_named=True)
+        for bi, what, op, kind in sinks:
+            n += 1
+            kinds = set()
+            if op.get("c") == "const":
+                d = op.get("def") or ""
+                if d.endswith("types::NIL") or d.endswith("types::OK"):
+                    kinds.add("tuple")
+            p = op_place(op)
+            if p is not None:
+                for x in fl.sources(p["l"], through_calls=("Clone::clone", "Option::unwrap", "Try::branch", "Option::ok_or", "Option::ok_or_else", "Option::unwrap_or", "Option::copied", "Option::Some")):
+                    if x[0] == "call":
+                        cal = x[2].get("callee") or ""
+                        for suf, k in ID_SOURCES.items():
+                            if cal.endswith(suf):
+                                kinds.add(k)
+                    elif x[0] == "const":
+                        d = x[1].get("def") or ""
+                        if d.endswith("types::NIL") or d.endswith("types::OK"):
+                            kinds.add("tuple")
+            if not kinds:
+                continue
+            judged += 1
+            site = "%s|%s<-%s" % (body.key, what, "/".join(sorted(kinds)))
+            ctx.check(kinds == {kind}, R, site, "%s id feeds %s" % (kind, what),
+                      "a %s id is used where %s expects a %s id: it addresses an unrelated entry of another table" % ("/".join(sorted(kinds)), what, kind), body.loc(bi))
+    ctx.extra["id_kind_sinks"] = {"examined": n, "with_known_source": judged}
+    ctx.floor(R, "id sinks with a known issuing call", judged, 20)
+
+
 def r6_nil_fill(ctx, rule_id="R-C07-6"):
     R = rule_id
     ctx.rule(R, "failure-path nil fill keeps local indices aligned: in compile_match, after the fail trampoline is patched (on_no_match is None) "
@@ -532,7 +604,7 @@ def r6_nil_fill(ctx, rule_id="R-C07-6"):
 
 
 def run(ctx):
-    ctx.run_rules([r1_jump_provenance, r2_index_fields, r3_dispatch_tables, r5_remap_order_and_freshness, r6_nil_fill])
+    ctx.run_rules([r1_jump_provenance, r2_index_fields, r3_dispatch_tables, r4_id_kinds, r5_remap_order_and_freshness, r6_nil_fill])
     ctx.note("NOT decided: per-path stack height, single argument/result, definite locals of emitted functions — properties of compiler output for all inputs")
     return (
         "Decides structural clauses only: jumps are built by one audited formula from in-range targets; the index-carrying instruction and type "
